@@ -83,7 +83,7 @@ def native_rt_obj(work):
 
 # ------------------------------------------------------------------ cbmc
 CBMC_FLAGS = ['--unwinding-assertions', '--pointer-overflow-check', '--undefined-shift-check', '--signed-overflow-check',
-              '--drop-unused-functions', '--no-malloc-may-fail', '--div-by-zero-check']
+              '--drop-unused-functions', '--no-malloc-may-fail', '--div-by-zero-check', '--object-bits', '11']
 
 class CbmcResult:
     def __init__(s): s.status = None; s.failed = []; s.nprops = 0; s.nfail = 0; s.time = 0; s.rss_mb = 0; s.out = ''; s.vccs = 0; s.vccs_remaining = 0; s.nondet = []; s.solver_s = 0.0
@@ -217,7 +217,7 @@ class AHarness:
     """one cbmc harness: entry function `entry` in harness TU `src` (C++ against the real headers)"""
     def __init__(s, name, src, entry, unwind=None, unwindset=None, defs=(), noinline=False, inline_all=False, redirect=None, allow_ext=(), indirect=None,
                  timeout=600, mem_gb=24, backend=None, flags=None, extra=(), what='', bound='', pre_inc=(), cflags=(), tiers=('quick', 'thorough'),
-                 expect_cex=None, std='c++11', native_replay=True, extra_c=()):
+                 expect_cex=None, std='c++11', native_replay=True, extra_c=(), threads=(), setup=None, post=None, nsteps=0):
         s.__dict__.update(locals()); del s.__dict__['s']
 
 _ll_cache = {}
@@ -231,14 +231,36 @@ def lower(work, h):
         _ll_cache[key] = ll
     return _ll_cache[key]
 
+def write_seq_main(path, h):
+    """A-seq scheduler: the threads are step machines (one atomic operation per step); a nondeterministic scheduler picks the
+    thread for each of nsteps steps, so the interleaving is a symbolic variable of a sequential program"""
+    T = list(h.threads); n = len(T)
+    o = ['#include <stdint.h>', 'unsigned char nondet_uchar(void);']
+    for t in T: o.append('void %s_step(void); extern int %s_done;' % (t, t))
+    o.append('void %s(void); void %s(void);' % (h.setup, h.post))
+    o.append('int main(void){ %s();' % h.setup)
+    o.append('  for (int s = 0; s < %d; ++s) { unsigned char pick = nondet_uchar(); __CPROVER_assume(pick < %d);' % (h.nsteps, n))
+    for k, t in enumerate(T): o.append('    if (pick == %d) { if (!%s_done) %s_step(); }' % (k, t, t))
+    o.append('  }')
+    o.append('  __CPROVER_assume(%s);   /* executions that need more than %d scheduled steps (long spins) are outside the bound */' % (' && '.join('%s_done' % t for t in T), h.nsteps))
+    o.append('  %s();' % h.post)
+    o.append('#ifdef WITNESS\n  __CPROVER_assert(0, "witness: end of harness reachable");\n#endif\n  return 0; }')
+    open(path, 'w').write('\n'.join(o) + '\n')
+
 def translate_harness(work, h):
     ll = lower(work, h)
     try:
-        code, g = irc.translate(ll, ['@' + h.entry], redirect=h.redirect, allow_ext=h.allow_ext, indirect=h.indirect)
+        if h.threads:
+            roots = ['@' + t for t in h.threads] + ['@' + h.setup, '@' + h.post]
+            code, g = irc.translate(ll, roots, redirect=h.redirect, allow_ext=h.allow_ext, indirect=h.indirect, step_funcs=['@' + t for t in h.threads])
+        else:
+            code, g = irc.translate(ll, ['@' + h.entry], redirect=h.redirect, allow_ext=h.allow_ext, indirect=h.indirect)
     except irc.Unencodable as e:
         raise Broken('%s: %s' % (h.name, e))
     cf = work.path(h.name + '.c'); open(cf, 'w').write(code)
-    mf = work.path(h.name + '_main.c'); write_main(mf, h.entry)
+    mf = work.path(h.name + '_main.c')
+    if h.threads: write_seq_main(mf, h)
+    else: write_main(mf, h.entry)
     return cf, mf, g
 
 def run_aharness(work, h, ev, witness=True):
